@@ -59,16 +59,16 @@ func victims(sc *Scan) []SlVal {
 }
 
 type slashSim struct {
-	n         *node
-	run       int
-	out       *json.Encoder
-	rng       *rand.Rand
-	capOn     bool
-	pct, max  uint64
-	reported  map[string]bool // "validator/height" pairs already used as evidence heights
-	nestedH   uint64          // chain height of the nested chain's last certificate
-	pending   []SlOrder       // slashes ordered by the last own-chain certificate: applied when the next block begins
-	salt      int
+	n        *node
+	run      int
+	out      *json.Encoder
+	rng      *rand.Rand
+	capOn    bool
+	pct, max uint64
+	reported map[string]bool // "validator/height" pairs already used as evidence heights
+	nestedH  uint64          // chain height of the nested chain's last certificate
+	pending  []SlOrder       // slashes ordered by the last own-chain certificate: applied when the next block begins
+	salt     int
 }
 
 func newSlashSim(run int, seed int64, out *json.Encoder) (*slashSim, error) {
